@@ -370,12 +370,12 @@ class Interpreter:
             (obj._tablename, nickname, obj)
             for nickname, obj in globals.persistent_nicknames.items()
         ]
-        already_saved = set(obj._id for (_, _, obj) in relevant_objs)
+        already_saved = set((obj._tablename, obj._id) for (_, _, obj) in relevant_objs)
         # and those known by their tablename, if not already in the list
         relevant_objs.extend(
             (tablename, None, obj)
             for tablename, obj in globals.persistent_objects_by_table.items()
-            if obj._id not in already_saved
+            if (tablename, obj._id) not in already_saved
         )
         # filter out those in tables that are not history-backed
         relevant_objs = (
